@@ -327,6 +327,10 @@ V('M-size-open', ['C14'], 'C14.denote', CO, "        if valueSize < self.start o
 V('M-union-all', ['C14'], 'C14.denote', CO, "            except error.ValueConstraintError:\n                pass\n            else:\n                return", "            except error.ValueConstraintError:\n                break\n            else:\n                return")
 V('M-optional-only', ['C01', 'C02', 'C09', 'C10'], ('A6.optdef', 'A6.spec'), 'pyasn1/type/namedtype.py', "            if namedType.isOptional or namedType.isDefaulted:\n                partialAmbiguousTypes = (namedType,) + partialAmbiguousTypes", "            if namedType.isOptional:\n                partialAmbiguousTypes = (namedType,) + partialAmbiguousTypes")
 
+
+V('M-open-default-first', ['C18'], 'A6.open', BD, "                            try:\n                                openType = openTypes[governingValue]\n\n                            except KeyError:\n\n                                if LOG:\n                                    LOG('default open types map of component '\n                                        '\"%s.%s\" governed by component \"%s.%s\"'\n                                        ':' % (asn1Object.__class__.__name__,\n                                               namedType.name,\n                                               asn1Object.__class__.__name__,\n                                               namedType.openType.name))\n\n                                    for k, v in namedType.openType.items():\n                                        LOG('%s -> %r' % (k, v))\n\n                                try:\n                                    openType = namedType.openType[governingValue]\n\n                                except KeyError:\n                                    if LOG:\n                                        LOG('failed to resolve open type by governing '\n                                            'value %r' % (governingValue,))\n                                    continue\n\n                            if LOG:\n                                LOG('resolved open type %r by governing '\n                                    'value %r' % (openType, governingValue))\n\n                            containerValue = asn1Object.getComponentByPosition(idx)\n\n                            if containerValue.typeId in (\n                                    univ.SetOf.typeId, univ.SequenceOf.typeId):\n\n                                for pos, containerElement in enumerate(\n                                        containerValue):\n\n                                    stream = asSeekableStream(containerValue[pos].asOctets())\n\n                                    for component in decodeFun(stream, asn1Spec=openType, **options):",
+  "                            try:\n                                openType = namedType.openType[governingValue]\n\n                            except KeyError:\n\n                                try:\n                                    openType = openTypes[governingValue]\n\n                                except KeyError:\n                                    continue\n\n                            containerValue = asn1Object.getComponentByPosition(idx)\n\n                            if containerValue.typeId in (\n                                    univ.SetOf.typeId, univ.SequenceOf.typeId):\n\n                                for pos, containerElement in enumerate(\n                                        containerValue):\n\n                                    stream = asSeekableStream(containerValue[pos].asOctets())\n\n                                    for component in decodeFun(stream, asn1Spec=openType, **options):")
+
 # --------------------------------------------------------------------------- runner
 
 def _copy_tree(repo, dest):
